@@ -1,6 +1,7 @@
 package checks
 
 import (
+	"sort"
 	"bytes"
 	"crypto/ecdh"
 	crand "crypto/rand"
@@ -35,6 +36,8 @@ type c04Cell struct {
 	WrongPin bool   `json:"wrong_pin"`
 	SameConn bool   `json:"same_conn"` // pair-verify on the connection that did pair-setup
 	Retry    bool   `json:"retry"`     // first a complete attempt with a wrong code on the same connection, then the right code
+	Segment  int    `json:"segment,omitempty"` // every pairing request body arrives in two TCP segments cut here (negative: from the end)
+	RePair   bool   `json:"repair,omitempty"`  // afterwards the same identifier pairs again with a new key pair and verifies with it
 }
 
 func c04ID(kind string) string {
@@ -49,6 +52,12 @@ func c04ID(kind string) string {
 		return strings.Repeat("k", 63)
 	case "utf8":
 		return "контроллер-ü✓-🔑"
+	case "96bytes":
+		return strings.Repeat("abcdefghijkl", 8)
+	case "97bytes":
+		return strings.Repeat("abcdefghijkl", 8) + "m"
+	case "124bytes": // the longest name whose hex form plus ".entity" still is a legal file name (255 bytes)
+		return strings.Repeat("N", 124)
 	}
 	return kind
 }
@@ -133,8 +142,14 @@ var _ io.Reader = &detStream{}
 
 func c04Exec(c *fw.Ctx, cell c04Cell) {
 	c.Eval(1)
-	name := fmt.Sprintf("pin=%s id=%s key=%s eph=%s srp=%s restart=%v req=%d wrong=%v same=%v retry=%v", cell.Pin, cell.IDKind, cell.KeySeed, cell.EphSeed, cell.SRP, cell.Restart, cell.ReqSize, cell.WrongPin, cell.SameConn, cell.Retry)
+	name := fmt.Sprintf("segment=%d repair=%v pin=%s id=%s key=%s eph=%s srp=%s restart=%v req=%d wrong=%v same=%v retry=%v", cell.Segment, cell.RePair, cell.Pin, cell.IDKind, cell.KeySeed, cell.EphSeed, cell.SRP, cell.Restart, cell.ReqSize, cell.WrongPin, cell.SameConn, cell.Retry)
 	sigCell := fmt.Sprintf("id=%s,srp=%s,restart=%v,req=%d,wrong=%v,same=%v,retry=%v", cell.IDKind, cell.SRP, cell.Restart, cell.ReqSize, cell.WrongPin, cell.SameConn, cell.Retry)
+	if cell.Segment != 0 {
+		sigCell += fmt.Sprintf(",segment=%d", cell.Segment)
+	}
+	if cell.RePair {
+		sigCell += ",repair"
+	}
 	fail := func(step, desc string) {
 		c.Report(step+"/"+sigCell, name+": "+desc, cell)
 	}
@@ -152,6 +167,7 @@ func c04Exec(c *fw.Ctx, cell c04Cell) {
 		c.Infra(err.Error())
 		return
 	}
+	k.SegmentBodyAt = cell.Segment
 	code := b.Code
 	if cell.WrongPin {
 		code = "123-45-678"
@@ -272,6 +288,19 @@ func c04Exec(c *fw.Ctx, cell c04Cell) {
 		fail("M6-identity", "the identity in M6 is not the accessory's stored identity")
 		return
 	}
+	if es, lerr := database.Entities(); lerr == nil {
+		var names []string
+		for _, x := range es {
+			names = append(names, x.Name)
+		}
+		sort.Strings(names)
+		want := []string{b.AccID, id.ID}
+		sort.Strings(want)
+		if strings.Join(names, "\x00") != strings.Join(want, "\x00") {
+			fail("stored-entity-list", fmt.Sprintf("after M6 the stored entities are %q, expected the accessory and the controller %q", names, want))
+			return
+		}
+	}
 	if cell.Restart {
 		dir := b.Dir
 		b.CloseKeep()
@@ -292,6 +321,7 @@ func c04Exec(c *fw.Ctx, cell c04Cell) {
 			c.Infra(err.Error())
 			return
 		}
+		vk.SegmentBodyAt = cell.Segment
 	}
 	_, vec, err := refctl.PairVerify(vk, id, c04EphSeed(cell.EphSeed), s.AccLTPK)
 	if err != nil || vec != 0 {
@@ -338,6 +368,45 @@ func c04Exec(c *fw.Ctx, cell c04Cell) {
 		fail("encrypted-get-characteristic", fmt.Sprintf("%v %v", m, err))
 		return
 	}
+	if cell.RePair {
+		// the same identifier pairs again with a new key pair (the user reset the controller). The accessory may refuse
+		// pair-setup while paired (the specification says so); but if it completes the exchange, the new key is the one
+		// that verifies from then on.
+		id2 := refctl.NewIdentity(id.ID, cell.KeySeed+"-second")
+		k2, err := b.Dial()
+		if err != nil {
+			c.Infra(err.Error())
+			return
+		}
+		_, ec2, err2 := refctl.PairSetup(k2, id2, b.Code, refctl.Seed32("repair-a"))
+		if err2 == nil && ec2 == 0 {
+			k3, err := b.Dial()
+			if err != nil {
+				c.Infra(err.Error())
+				return
+			}
+			if _, vec, err := refctl.PairVerify(k3, id2, c04EphSeed(cell.EphSeed), s.AccLTPK); err != nil || vec != 0 {
+				fail("pair-verify-after-second-pair-setup", fmt.Sprintf("pair-setup of the same identifier with a new key pair completed, but pair-verify with the new key is answered with error code %d, %v", vec, err))
+				return
+			}
+			if m, _, err := k3.Do("GET", "/accessories", "", nil); err != nil || m.Status != 200 {
+				fail("encrypted-get-after-second-pair-setup", fmt.Sprintf("%v %v", m, err))
+				return
+			}
+			k4, err := b.Dial()
+			if err != nil {
+				c.Infra(err.Error())
+				return
+			}
+			if _, vec, err := refctl.PairVerify(k4, id, c04EphSeed(cell.EphSeed), s.AccLTPK); err == nil && vec == 0 {
+				fail("replaced-key-still-verifies", "after the identifier paired again with a new key pair the replaced key still verifies")
+				return
+			}
+			c.Class("re-paired")
+		} else {
+			c.Class(fmt.Sprintf("second pair-setup refused (%d, %v)", ec2, err2))
+		}
+	}
 	if p := world.PanicsFor(""); len(p) > 0 {
 		fail("panic", "handler panic during a correct exchange: "+p[0])
 		return
@@ -347,7 +416,7 @@ func c04Exec(c *fw.Ctx, cell c04Cell) {
 
 func c04Cells(thorough bool) []c04Cell {
 	pins := []string{"00102003", "00000001", "99999998", "01020304", "12345679", "87654320", "11111112", "00000010", "99999990"}
-	ids := []string{"uuid", "1byte", "64bytes", "63bytes", "utf8"}
+	ids := []string{"uuid", "1byte", "64bytes", "63bytes", "utf8", "96bytes", "97bytes", "124bytes"}
 	keys := []string{"k1", "k2", "k3"}
 	ephs := []string{"e1", "e2", "highbit"}
 	reqs := []int{0, 1024, 1025, 1023, 2048, 2049, 4097}
@@ -382,6 +451,12 @@ func c04Cells(thorough bool) []c04Cell {
 	add(func(x *c04Cell) { x.WrongPin = true; x.IDKind = "utf8"; x.Pin = pins[2] })
 	add(func(x *c04Cell) { x.Retry = true })
 	add(func(x *c04Cell) { x.Retry = true; x.SameConn = true; x.Pin = pins[3] })
+	for _, sg := range []int{1, 2, 3, 120, 258, 300, -1} {
+		add(func(x *c04Cell) { x.Segment = sg })
+	}
+	add(func(x *c04Cell) { x.Segment = 40; x.SameConn = true; x.IDKind = "124bytes" })
+	add(func(x *c04Cell) { x.RePair = true })
+	add(func(x *c04Cell) { x.RePair = true; x.SameConn = true; x.IDKind = "utf8" })
 	if thorough {
 		// the full cross product of the smaller dimensions
 		for _, p := range pins[:4] {
